@@ -287,6 +287,8 @@ func finishEvidence() {
 	run.Require("overflow-answered", 10)
 	run.Require("receiver-overshoot-cases", 20)
 	run.Require("receiver-exact-fill-accepted", 20)
+	run.Require("padded-discard-checks", 14)
+	run.Require("padded-discard-frames", 1400)
 	run.Require("long-history-streams", int64(run.Pick(2*3000, 2*50000)))
 	run.Require("handler-starts", 1000)
 	run.Require("transport-requests", 1000)
